@@ -21,7 +21,7 @@ type Options struct {
 	Workers   int
 	Deadline  time.Time
 	LogSlots  uint
-	StopFirst bool // stop at the first unlisted violation
+	StopFirst bool     // stop at the first unlisted violation
 	Props     []string // see DFS.Props
 }
 
@@ -37,14 +37,14 @@ type workResult struct {
 
 // Result of a suite run.
 type Result struct {
-	Suite      string
-	Stats      Stats
-	Founds     []*Found
-	Distinct   uint64 // distinct state fingerprints (global, exact up to 64-bit collisions)
-	Exhaustive bool
-	Frontier   int
+	Suite         string
+	Stats         Stats
+	Founds        []*Found
+	Distinct      uint64 // distinct state fingerprints (global, exact up to 64-bit collisions)
+	Exhaustive    bool
+	Frontier      int
 	FrontierDepth int
-	Wall       float64
+	Wall          float64
 }
 
 func scratch() string {
